@@ -59,6 +59,8 @@ def queries(tier, seed):
             qs.append(Query(f"array[{code}|m={m}|all]", lambda c, a=(code, m): D.h_array(c, *a), {"h": "array", "code": code, "m": m, "sym_at": None}, group=f"array:{code}", max_secs=900 if thorough else 150, max_paths=200_000, weight=10 + n * m,
                             split_depth=(10 if n * m >= 6 else None)))
         # ... the same multi-element payload addressed to another device (not the announce-to-self form): refused, or still a list
+        qs.append(Query(f"array[{code}|m=2|anysrc]", lambda c, a=(code, 2, 0, "anysrc"): D.h_array(c, *a), {"h": "array", "code": code, "m": 2, "sym_at": 0, "shape": "anysrc"}, group=f"array:{code}", max_secs=150, max_paths=200_000, weight=10 + n,
+                        mode=("bv" if code in ("3150",) and False else "int")))
         qs.append(Query(f"array[{code}|m=2|to]", lambda c, a=(code, 2, 0, "to"): D.h_array(c, *a), {"h": "array", "code": code, "m": 2, "sym_at": 0, "shape": "to"}, group=f"array:{code}", max_secs=150, max_paths=200_000, weight=10 + n,
                         split_depth=(10 if n >= 6 else None)))
         # ... and one symbolic element at each position among logged neighbours
